@@ -555,16 +555,24 @@ def r3_closed_forms(program, folder, rep):
     ps = formals(fn)
     wv, hv = ps[2], ps[3]
     # find the definitions after the reduction modulo w, h
-    mods = {d.var: d for d in fl.defs if d.mode == "aug" and
-            isinstance(d.value.op, ast.Mod)}
+    # (the two offsets are recognised by what they are reduced by - the
+    # width and the height - not by what they are called)
+    mods = {}
+    for d in fl.defs:
+        if d.mode == "aug" and isinstance(d.value.op, ast.Mod):
+            by = fl.sym(d.value.value, d.node)
+            if by == Poly.atom(wv):
+                mods["x"] = d
+            elif by == Poly.atom(hv):
+                mods["y"] = d
     if set(mods) != {"x", "y"}:
         raise AnalysisError("shortest_torus_path_length: reduction modulo "
                             "w/h not found")
+    xv, yv = mods["x"].var, mods["y"].var
     start = max(mods["x"].node.id, mods["y"].node.id)
     last_mod = mods["x"].node if mods["x"].node.id == start else \
         mods["y"].node
-    okm = unparse(mods["x"].value.value) in ("w", wv) and \
-        unparse(mods["y"].value.value) in ("h", hv)
+    okm = True
     rep.check(okm, "C11-R3", qual(fn), "offsets are reduced modulo width "
               "(x) and height (y)", construct="torus reduction", node=fn)
     # what is reduced: the signed offset of the destination from the source
@@ -573,7 +581,7 @@ def r3_closed_forms(program, folder, rep):
     # hops, (+a, +b) max(a, b).
     sp_, dp_ = ps[0], ps[1]
     for var, k in (("x", 0), ("y", 1)):
-        got = fl.sym(parse_expr(var), mods[var].node)
+        got = fl.sym(parse_expr(mods[var].var), mods[var].node)
         want = fl.sym(parse_expr(
             "({d}[{k}] - {s}[{k}]) - ({d}[2] - {s}[2])".format(
                 d=dp_, s=sp_, k=k)), mods[var].node)
@@ -595,10 +603,10 @@ def r3_closed_forms(program, folder, rep):
                        "same sign, the length reported is not the graph "
                        "distance" % (var, got, want))
     # x, y = x - z, y - z over destination - source
-    X = fl.sym_after(parse_expr("x"), last_mod)
-    Y = fl.sym_after(parse_expr("y"), last_mod)
-    Wp = fl.sym(parse_expr("w"), last_mod)
-    Hp = fl.sym(parse_expr("h"), last_mod)
+    X = fl.sym_after(parse_expr(xv), last_mod)
+    Y = fl.sym_after(parse_expr(yv), last_mod)
+    Wp = fl.sym(parse_expr(wv), last_mod)
+    Hp = fl.sym(parse_expr(hv), last_mod)
     spec_polys = {"a": X, "b": Y, "c": Wp - X + Y, "d": X + Hp - Y,
                   "e": Wp - X, "f": Hp - Y}
     inv = {}
@@ -634,7 +642,7 @@ def r3_closed_forms(program, folder, rep):
         return None
 
     def env6(o):
-        return {"x": T("a"), "y": T("b"), "<assign-hook>": hook}
+        return {xv: T("a"), yv: T("b"), "<assign-hook>": hook}
 
     def spec6(o):
         r = o.rank
